@@ -33,6 +33,10 @@ def run(c, chk):
     # R13.1
     c06.include_position(c, P(chk, {'R6.5': 'R13.1'}), lex)
 
+    # R13.10: a refused include costs nothing lasting: file closed, name released, include stack as deep as before
+    chk.rule('R13.10', 'every failing exit of the include function has closed the file, released the name and left the include stack as deep as it found it (no lasting loss of include capacity)')
+    c08.refused_include_leaves_nothing(c, P(chk, {'R8.7': 'R13.10'}))
+
     # R13.2
     g = c.lexer.globals.get('@cfg_include_stack')
     if g is None:
